@@ -1,4 +1,4 @@
 From Coq Require Extraction ExtrOcamlBasic.
-From GV Require Import Sym.AsuDefs Move.Move Move.Expand.
+From GV Require Import Sym.AsuDefs Move.Move Move.Expand Move.PlusMinus.
 Extraction Blacklist String List Nat.
-Extraction "move.ml" expand_entry move_entry apply_phase swaps_anomalous original_from row_asu operations sg_table.
+Extraction "move.ml" expand_entry move_entry apply_phase swaps_anomalous original_from pm_pairs apply_swaps row_asu operations sg_table.
